@@ -34,14 +34,14 @@ theorem cntP_eq (ops : List Op) : cntP ops = countKind P (shapeOf ops) := by
   | nil => rfl
   | cons op t ih =>
     unfold cntP
-    cases hk : op.kind <;> simp [countKind, shapeOf, hk, List.filter_cons] at * <;> omega
+    cases hk : op.kind <;> simp [countKind, shapeOf, hk] at * <;> omega
 
 theorem cntD_eq (ops : List Op) : cntD ops = countKind D (shapeOf ops) := by
   induction ops with
   | nil => rfl
   | cons op t ih =>
     unfold cntD
-    cases hk : op.kind <;> simp [countKind, shapeOf, hk, List.filter_cons] at * <;> omega
+    cases hk : op.kind <;> simp [countKind, shapeOf, hk] at * <;> omega
 
 /-- `rc_normalize`: from `65536 ≤ r < 2^32` the result is normalised and equals `r * 256^(bytes read)`. -/
 theorem normR_spec (r : Nat) (hlo : 65536 ≤ r) (hhi : r < U32) :
@@ -134,57 +134,38 @@ theorem runR_inv : ∀ (ops : List Op) (r : Nat), 65536 ≤ r → r < U32 → Op
         _ ≤ 33554432 * (R * 67 ^ a * 33554432 ^ b) := Nat.mul_le_mul_left _ i3
         _ = R * 67 ^ a * 33554432 ^ (1 + b) := by ring
 
-/-- the two numeric facts that turn the potential inequality into "at most 20 bytes" -/
-theorem num_k21 : 4294967296 * 67 ^ 21 * 33554432 ^ 26 < 253952 * 256 ^ 21 * 16777215 ^ 26 := by decide
-theorem num_k20 : 16777216 * 67 ^ 21 * 33554432 ^ 26 < 253952 * 256 ^ 20 * 16777215 ^ 26 := by decide
-
-/-- Bits with at most 21 probability bits and at most 26 direct bits, started from any range a finished symbol can
-    leave (≥ 8192·31): at most 20 bytes are read, and if 20 were read the range is normalised afterwards (so the
-    normalisation before one more bit reads nothing). -/
+/-- Bits within the budget (`budgetOk`), started from any range a finished symbol can leave (≥ 8192·31): at most 20
+    bytes are read, and if 20 were read the range is normalised afterwards (so the normalisation before one more bit
+    reads nothing). -/
 theorem runR_bound (ops : List Op) (r : Nat) (hlo : 253952 ≤ r) (hhi : r < U32) (hok : OpsOk ops)
-    (ha : cntP ops ≤ 21) (hb : cntD ops ≤ 26) :
+    (hbud : budgetOk (cntP ops) (cntD ops) = true) :
     (runR r ops).2 ≤ 20 ∧ ((runR r ops).2 = 20 → RC_TOP_VALUE ≤ (runR r ops).1) := by
   obtain ⟨_, i2, i3⟩ := runR_inv ops r (by omega) hhi hok
+  unfold budgetOk at hbud
+  simp only [Bool.and_eq_true, decide_eq_true_eq] at hbud
+  obtain ⟨hb21, hb20⟩ := hbud
   generalize (runR r ops).1 = R at *
   generalize (runR r ops).2 = k at *
-  generalize cntP ops = a at *
-  generalize cntD ops = b at *
   simp only [U32, RC_TOP_VALUE] at *
-  -- pad the exponents to a = 21, b = 26
-  have h67 : 67 ^ a ≤ 67 ^ 21 := Nat.pow_le_pow_right (by norm_num) ha
-  have hpad : (33554432 : Nat) ^ b * 16777215 ^ (26 - b) ≤ 33554432 ^ 26 := by
-    calc (33554432 : Nat) ^ b * 16777215 ^ (26 - b)
-        ≤ 33554432 ^ b * 33554432 ^ (26 - b) := Nat.mul_le_mul_left _ (Nat.pow_le_pow_left (by norm_num) _)
-      _ = 33554432 ^ 26 := by rw [← Nat.pow_add]; congr 1; omega
-  have hC : (16777215 : Nat) ^ b * 16777215 ^ (26 - b) = 16777215 ^ 26 := by
-    rw [← Nat.pow_add]; congr 1; omega
-  have key : 253952 * 256 ^ k * 16777215 ^ 26 ≤ R * 67 ^ 21 * 33554432 ^ 26 := by
-    calc 253952 * 256 ^ k * 16777215 ^ 26
-        = (253952 * 256 ^ k * 16777215 ^ b) * 16777215 ^ (26 - b) := by rw [← hC]; ring
-      _ ≤ (r * 256 ^ k * 16777215 ^ b) * 16777215 ^ (26 - b) := by
-          apply Nat.mul_le_mul_right; apply Nat.mul_le_mul_right; exact Nat.mul_le_mul_right _ hlo
-      _ ≤ (R * 67 ^ a * 33554432 ^ b) * 16777215 ^ (26 - b) := Nat.mul_le_mul_right _ i3
-      _ = R * 67 ^ a * (33554432 ^ b * 16777215 ^ (26 - b)) := by ring
-      _ ≤ R * 67 ^ a * 33554432 ^ 26 := Nat.mul_le_mul_left _ hpad
-      _ ≤ R * 67 ^ 21 * 33554432 ^ 26 := by
-          apply Nat.mul_le_mul_right; exact Nat.mul_le_mul_left _ h67
+  have i3' : r * 256 ^ k * 16777215 ^ cntD ops ≤ R * (67 ^ cntP ops * 33554432 ^ cntD ops) := by
+    rw [← Nat.mul_assoc]; exact i3
+  generalize 67 ^ cntP ops * 33554432 ^ cntD ops = X at *
+  generalize 16777215 ^ cntD ops = Cb at *
+  have key : 253952 * 256 ^ k * Cb ≤ R * X :=
+    Nat.le_trans (Nat.mul_le_mul_right _ (Nat.mul_le_mul_right _ hlo)) i3'
   constructor
   · -- k ≥ 21 contradicts R < 2^32
     by_contra hk
     have hk21 : 21 ≤ k := by omega
     have hp : (256 : Nat) ^ 21 ≤ 256 ^ k := Nat.pow_le_pow_right (by norm_num) hk21
-    have h1 : 253952 * 256 ^ 21 * 16777215 ^ 26 ≤ 253952 * 256 ^ k * 16777215 ^ 26 := by
-      apply Nat.mul_le_mul_right; exact Nat.mul_le_mul_left _ hp
-    have h2 : R * 67 ^ 21 * 33554432 ^ 26 ≤ 4294967296 * 67 ^ 21 * 33554432 ^ 26 := by
-      apply Nat.mul_le_mul_right; apply Nat.mul_le_mul_right; omega
-    have := num_k21
+    have h1 : 253952 * 256 ^ 21 * Cb ≤ 253952 * 256 ^ k * Cb :=
+      Nat.mul_le_mul_right _ (Nat.mul_le_mul_left _ hp)
+    have h2 : R * X ≤ 4294967296 * X := Nat.mul_le_mul_right _ (by omega)
     omega
   · intro hk20
     subst hk20
     by_contra hR
-    have h2 : R * 67 ^ 21 * 33554432 ^ 26 ≤ 16777216 * 67 ^ 21 * 33554432 ^ 26 := by
-      apply Nat.mul_le_mul_right; apply Nat.mul_le_mul_right; omega
-    have := num_k20
+    have h2 : R * X ≤ 16777216 * X := Nat.mul_le_mul_right _ (by omega)
     omega
 
 theorem runR_append (r : Nat) (ops1 ops2 : List Op) :
@@ -203,18 +184,14 @@ theorem cntD_append (a b : List Op) : cntD (a ++ b) = cntD a + cntD b := by
   | nil => simp [cntD]
   | cons op t ih => simp only [List.cons_append, cntD, ih]; omega
 
-/-- One whole symbol: at most 22 probability bits and 26 direct bits, the last bit being a probability bit.
+/-- One whole symbol: the bits before the last are within the budget and the last bit is a probability bit.
     At most 20 bytes are read, and the range left behind is again ≥ 8192·31 (so the bound chains over symbols). -/
 theorem symbol_bound (ops : List Op) (last : Op) (r : Nat) (hlo : 253952 ≤ r) (hhi : r < U32)
-    (hok : OpsOk (ops ++ [last])) (hl : last.kind = .prob) (ha : cntP (ops ++ [last]) ≤ 22) (hb : cntD (ops ++ [last]) ≤ 26) :
+    (hok : OpsOk (ops ++ [last])) (hl : last.kind = .prob) (hbud : budgetOk (cntP ops) (cntD ops) = true) :
     (runR r (ops ++ [last])).2 ≤ 20 ∧ 253952 ≤ (runR r (ops ++ [last])).1 ∧ (runR r (ops ++ [last])).1 < U32 := by
   have hok1 : OpsOk ops := fun o ho hk => hok o (List.mem_append_left _ ho) hk
   have hpl : ProbInv last.p := hok last (List.mem_append_right _ List.mem_cons_self) hl
-  have ha1 : cntP ops ≤ 21 := by
-    rw [cntP_append] at ha; simp [cntP, hl] at ha; omega
-  have hb1 : cntD ops ≤ 26 := by
-    rw [cntD_append] at hb; simp [cntD, hl] at hb; omega
-  obtain ⟨b1, b2⟩ := runR_bound ops r hlo hhi hok1 ha1 hb1
+  obtain ⟨b1, b2⟩ := runR_bound ops r hlo hhi hok1 hbud
   obtain ⟨i1, i2, _⟩ := runR_inv ops r (by omega) hhi hok1
   rw [runR_append]
   simp only [runR, Nat.add_zero]
@@ -231,5 +208,24 @@ theorem symbol_bound (ops : List Op) (last : Op) (r : Nat) (hlo : 253952 ≤ r) 
       omega
     omega
   · omega
+
+/-- The same from the shape predicate of Model/C04Sym.lean (`shapeOk`: the last bit is a probability bit and the bits
+    before it are within the budget). -/
+theorem symbol_bound_of_shape (ops : List Op) (r : Nat) (hs : shapeOk (shapeOf ops) = true) (hok : OpsOk ops)
+    (hlo : 253952 ≤ r) (hhi : r < U32) :
+    (runR r ops).2 ≤ 20 ∧ 253952 ≤ (runR r ops).1 ∧ (runR r ops).1 < U32 := by
+  unfold shapeOk at hs
+  simp only [Bool.and_eq_true, beq_iff_eq] at hs
+  obtain ⟨hl, hbud⟩ := hs
+  rcases List.eq_nil_or_concat ops with h | ⟨init, last, h⟩
+  · subst h; simp [shapeOf] at hl
+  · rw [List.concat_eq_append] at h
+    subst h
+    have hk : last.kind = .prob := by
+      simp [shapeOf] at hl
+      exact hl
+    rw [← cntP_eq, ← cntD_eq, cntP_append, cntD_append] at hbud
+    simp only [cntP, cntD, hk, if_true, reduceCtorEq, if_false, Nat.add_zero] at hbud
+    exact symbol_bound init last r hlo hhi hok hk (by simpa using hbud)
 
 end XzVerif.C04Sym
